@@ -180,8 +180,9 @@ impl MessageBufReader {
     }
 
     pub fn is_empty(&self) -> bool {
-        if self.start >= self.buf.len() {
-            true
+        if self.start >= self.end {
+            // no unread byte: this is not an end marker (a zero length prefix)
+            false
         } else {
             self.buf[self.start] == 0
         }
